@@ -13,12 +13,13 @@ CONSTANTS Sizes,      \* sizes of the initial map
           Sel         \* selectors used by the edits, e.g. {"lo", "mid", "hi"}
 
 Null == -1            \* t.Data[k] for a key that is not in the map: the nil object
+NullVal == 0          \* the PDF null object stored as a value: the key is present like any other
 
 \* the elements of a finite set of integers in ascending order
 SortSet(S) == SortSeq(SetToSeq(S), LAMBDA a, b : a < b)
 RefAll(d) == LET ks == SortSet(DOMAIN d) IN [i \in 1..Len(ks) |-> <<ks[i], d[ks[i]]>>]
 
-InitMap(n) == [k \in {8 * i : i \in 1..n} |-> k \div 8]
+InitMap(n) == [k \in {8 * i : i \in 1..n} |-> (k \div 8) - 1]    \* the least key carries the null object
 
 ----------------------------------------------------------------------------
 (* Edits of the exported map, by position.  del selects a present key, add  *)
@@ -58,7 +59,9 @@ ImplMemKeys(d, cache) == IF Variant = "cachedKeys" /\ Len(cache) = Cardinality(D
                          ELSE SortSet(DOMAIN d)
 ImplMemAll(d, cache) == LET ks == ImplMemKeys(d, cache)
                         IN [i \in 1..Len(ks) |-> <<ks[i], IF ks[i] \in DOMAIN d THEN d[ks[i]] ELSE Null>>]
-ImplMemLookup(d, k) == IF k \in DOMAIN d THEN <<TRUE, d[k]>> ELSE NotFound
+\* Variant "nullMeansAbsent" (a seeded defect, negative control): "if value := Data[key]; value != nil"
+ImplMemLookup(d, k) == IF k \in DOMAIN d /\ ~(Variant = "nullMeansAbsent" /\ d[k] = NullVal)
+                       THEN <<TRUE, d[k]>> ELSE NotFound
 \* Write(w, t.All()): the writer of KeyTreeDefs on what All yields
 Rejected == [kind |-> "rejected", ents |-> <<>>, kids |-> <<>>, lim |-> <<>>]
 ImplMemWrite(d, cache) == LET all == ImplMemAll(d, cache)
